@@ -409,9 +409,9 @@ func Main(args []string) error {
 				now := c.AST*1000 + availMS(v, n) + slack
 				var url string
 				if c.Mode == "time" {
-					url = c.Prefix(a.Name) + "/" + strings.ReplaceAll(au.MediaPat, "$Number$", fmt.Sprint(aStartInput(v, k, n)))
+					url = c.Prefix(a.Name) + "/" + strings.ReplaceAll(strings.ReplaceAll(au.MediaPat, "$Number$", fmt.Sprint(aStartInput(v, k, n))), "$Time$", fmt.Sprint(aStartInput(v, k, n)))
 				} else {
-					url = c.Prefix(a.Name) + "/" + strings.ReplaceAll(au.MediaPat, "$Number$", fmt.Sprint(n+c.EffSNR()))
+					url = c.Prefix(a.Name) + "/" + strings.ReplaceAll(strings.ReplaceAll(au.MediaPat, "$Number$", fmt.Sprint(n+c.EffSNR())), "$Time$", fmt.Sprint(n+c.EffSNR()))
 				}
 				resp := env.S.Get(url + "?nowMS=" + fmt.Sprint(now))
 				e := tr.E{"ev": "seg", "k": n / N, "i": n % N, "st": resp.Status, "run": prevOK, "url": url, "now": fmt.Sprint(now)}
